@@ -7,7 +7,6 @@ import (
 	"fmt"
 	"go/token"
 	"go/types"
-	"sort"
 	"strconv"
 	"strings"
 
@@ -83,6 +82,10 @@ type VC struct {
 	anchorsHit map[int]bool
 	callOrd    map[ssa.Instruction]int
 	callByName map[string]ssa.Instruction
+	callOrdQ   map[ssa.Instruction]string
+	implIfaces map[string]*types.Interface
+	mapKeys    map[Term]*mapKeyInfo
+	strLitRev  map[Term]*string
 }
 
 type deferredCall struct {
@@ -689,29 +692,53 @@ func (vc *VC) strLit(s string) Term {
 	vc.strLits[s] = n
 	vc.decls = append(vc.decls, fmt.Sprintf("(declare-const %s Str)", n))
 	vc.axiom(eq(app("strlen", n), num(int64(len(s)))))
-	if len(s) <= 64 {
+	if len(s) <= 64 && len(vc.strLits) <= 64 {
 		for i := 0; i < len(s); i++ {
 			vc.axiom(eq(app("strat", n, num(int64(i))), num(int64(s[i]))))
 		}
 	}
-	// distinctness from the other literals
-	var others []string
-	for o, t := range vc.strLits {
-		if o != s {
-			others = append(others, t)
-		}
+	// distinct literals are distinct values: an injective numbering
+	if !vc.declared["strid"] {
+		vc.declareFun("strid", []string{"Str"}, "Int")
 	}
-	sort.Strings(others)
-	for _, t := range others {
-		vc.axiom(not(eq(n, t)))
+	vc.axiom(eq(app("strid", n), num(int64(len(vc.strLits)))))
+	if vc.strLitRev == nil {
+		vc.strLitRev = map[Term]*string{}
 	}
+	sc := s
+	vc.strLitRev[n] = &sc
 	return n
 }
 
 // ---------- interface tags ----------
 
 func (vc *VC) typeTag(t types.Type) Term {
-	return num(int64(vc.G.tagOf(t)))
+	n := vc.G.tagOf(t)
+	vc.extendImplAxioms()
+	return num(int64(n))
+}
+
+// extendImplAxioms keeps the impl.<I> predicates total over every type tag known so far.
+func (vc *VC) extendImplAxioms() {
+	for name, it := range vc.implIfaces {
+		if !vc.declared[name] {
+			continue // declared during a rolled-back dry run
+		}
+		for k := 0; k < len(vc.G.tagTypes); k++ {
+			t := vc.G.tagTypes[k]
+			tg := num(int64(vc.G.tags[t.String()]))
+			flag := "implax:" + name + ":" + tg
+			if vc.declared[flag] {
+				continue
+			}
+			vc.declared[flag] = true
+			if types.Implements(t, it) {
+				vc.axiom(app(name, tg))
+			} else {
+				vc.axiom(not(app(name, tg)))
+			}
+		}
+	}
 }
 
 // patAtom returns a term that may appear inside a quantifier pattern: a declared constant
